@@ -9,7 +9,7 @@ RULE = ('cases = the non-degenerate RLC + ideal-source circuits of C10 (strictly
         'listing order).  Checked on the implementation: with W = diag(C..., L...) in the model\'s own state order the symmetric '
         'matrix W A + A^T W has no positive eigenvalue; no eigenvalue of A has a positive real part; after a finite pulse on every '
         'source the stored energy sum C v^2/2 + sum L i^2/2 computed from TransientSolution (capacitor voltages, inductor currents) '
-        'never increases from one sample to the next and all samples stay bounded.  distinct = distinct circuit; non-trivial = '
+        'never increases from one sample to the next and all samples stay bounded; every second circuit is analysed again in the same process with other capacitances / inductances (same names and topology: a parameter sweep) and must satisfy the same conditions.  distinct = distinct circuit; non-trivial = '
         '>= 2 states or >= 1 state with a dissipative path')
 
 TRUSTED = c10.TRUSTED + ['scipy.signal.lsim for the simulated-energy clause (not modelled)']
@@ -69,6 +69,21 @@ def check_case(case):
     return bad
 
 
+def check_case_fresh(case):
+    """check_case in a fresh interpreter (no state left over from earlier analyses)"""
+    import json
+    import os
+    import subprocess
+    import sys
+    code = ('import json,sys; import c11; case=json.loads(sys.stdin.read()); print(json.dumps(c11.check_case(case)))')
+    try:
+        out = subprocess.run([sys.executable, '-c', code], input=json.dumps(case), capture_output=True, text=True, timeout=300,
+                             env=dict(os.environ))
+        return [tuple(x) for x in json.loads(out.stdout.strip().splitlines()[-1])]
+    except Exception:  # noqa: BLE001
+        return []
+
+
 def examine(ctx, cases):
     for origin, case in cases:
         ctx.evaluations += 1
@@ -80,6 +95,25 @@ def examine(ctx, cases):
         for key, what in check_case(case):
             small = ssrun.shrink(case, lambda cc, key=key: ssrun.nondegenerate(cc) and any(k == key for k, _ in check_case(cc)))
             ctx.violation(key, what, {'circuit': small})
+        # parameter sweep in one session: the same topology and names with other capacitances / inductances, analysed right after
+        if nst >= 1 and ctx.evaluations % 2 == 0:
+            import copy
+            import random
+            r = random.Random(ctx.evaluations)
+            swept = copy.deepcopy(case)
+            for c in swept['components']:
+                if c['kind'] == 'capacitor':
+                    c['params']['C'] = r.choice([v for v in ssrun.C_VALUES if v != c['params']['C']])
+                if c['kind'] == 'inductance':
+                    c['params']['L'] = r.choice([v for v in ssrun.L_VALUES if v != c['params']['L']])
+            ctx.count('swept-after-first-analysis')
+            if ssrun.nondegenerate(swept):
+                for key, what in check_case(swept):
+                    if any(k == key for k, _ in check_case_fresh(swept)):
+                        ctx.violation(key, what, {'circuit': swept})        # fails on its own as well
+                    else:
+                        ctx.violation(key + ':after-analysing-same-topology-with-other-values', what + ' — only when the same circuit with other '
+                                      'C/L values was analysed before in the same process', {'circuit': swept, 'analysed_before': case})
         if nst >= 1:
             ctx.nontriv([(c['kind'], c['id'], c['nodes'], sorted(c['params'].items())) for c in case['components']])
         ctx.sample({'circuit': case}, cap=3)
@@ -96,5 +130,12 @@ def run(ctx):
 def replay(ctx, obj):
     ctx.trusted = TRUSTED
     if standard_prologue(ctx):
-        examine(ctx, [('replay', obj['case']['circuit'])])
+        c = obj['case']
+        if 'analysed_before' in c:
+            check_case(c['analysed_before'])
+            for key, what in check_case(c['circuit']):
+                ctx.violation(key + ':after-analysing-same-topology-with-other-values', what, c)
+            ctx.evaluations += 1
+        else:
+            examine(ctx, [('replay', c['circuit'])])
     return RULE
